@@ -558,6 +558,11 @@ class Lowerer:
         inner = n
         while inner['kind'] in ('ParenExpr',) or (inner['kind'] == 'ImplicitCastExpr' and inner.get('castKind') == 'NoOp'):
             inner = inner['inner'][0]
+        if inner['kind'] == 'ConditionalOperator' and self.is_lvalue(inner):
+            # &(c ? a : b) on lvalues  ->  c ? &a : &b   (C has no lvalue conditional)
+            c_, a_, b_ = inner['inner']
+            self.rule('address of an lvalue conditional -> conditional of addresses')
+            return '((%s) ? %s : %s)' % (self.e(c_), self.addr(a_), self.addr(b_))
         tempish = inner
         while tempish.get('kind') in ('ExprWithCleanups', 'CXXBindTemporaryExpr'): tempish = tempish['inner'][0]
         is_temp = tempish.get('kind') == 'MaterializeTemporaryExpr' or (tempish.get('kind') in ('CXXOperatorCallExpr', 'CXXMemberCallExpr', 'CallExpr') and self.is_extern_call(tempish)
